@@ -63,8 +63,24 @@ def gen_db(rng, ndim, nvar, n, nfex, p_na=0.0, p_coord_na=0.0, with_verr=False, 
 
 def db_sx(db):
     D = lambda col: [dy(x) for x in col]
-    return [[D(c) for c in db['coords']], [D(c) for c in db.get('z', [])], [D(c) for c in db.get('verr', [])],
-            [D(c) for c in db.get('fext', [])], [1 if s else 0 for s in db.get('sel', [])]]
+    out = [[D(c) for c in db['coords']], [D(c) for c in db.get('z', [])], [D(c) for c in db.get('verr', [])],
+           [D(c) for c in db.get('fext', [])], [1 if s else 0 for s in db.get('sel', [])]]
+    if db.get('grid'):
+        g = db['grid']; out.append([list(g['nx']), [dy(x) for x in g['dx']], [dy(x) for x in g['x0']]])
+    return out
+
+def gen_grid_db(rng, ndim):
+    """small grid Db for block kriging: node order = first index fastest"""
+    nx = [rng.choice([2, 3]) for _ in range(ndim)]
+    dx = [rng.choice([1, 2, Fraction(1, 2), 4]) for _ in range(ndim)]
+    x0 = [Fraction(rng.randint(-16, 16), 2) for _ in range(ndim)]
+    import itertools
+    nodes = []
+    for idx in itertools.product(*[range(n) for n in reversed(nx)]):
+        idx = idx[::-1]
+        nodes.append([x0[d] + idx[d] * dx[d] for d in range(ndim)])
+    coords = [[nd[d] for nd in nodes] for d in range(ndim)]
+    return {'coords': coords, 'z': [], 'verr': [], 'fext': [], 'sel': [], 'n': len(nodes), 'grid': {'nx': nx, 'dx': dx, 'x0': x0}}
 
 def monomials(ndim, order):
     """same order as DriftFactory::createDriftListFromIRF (only used for counting; the list itself is harvested)"""
@@ -104,7 +120,8 @@ def parse_harness(res):
     drifts, ok, per = res
     out = []
     for t in per:
-        it, err, nbgh, nred, flag, lhs, rhs, wgt, zam, var0, est, std, varz, clhs, crhs, c00 = t
+        it, err, nbgh, nred, flag, lhs, rhs, wgt, zam, var0, est, std, varz, clhs, crhs, c00 = t[:16]
+        cvv = t[16] if len(t) > 16 else []
         out.append({'it': it, 'err': err, 'nbgh': nbgh, 'nred': nred, 'flag': flag, 'lhs': lhs, 'rhs': rhs, 'wgt': wgt,
-                    'zam': zam, 'var0': var0, 'est': est, 'std': std, 'varz': varz, 'clhs': clhs, 'crhs': crhs, 'c00': c00})
+                    'zam': zam, 'var0': var0, 'est': est, 'std': std, 'varz': varz, 'clhs': clhs, 'crhs': crhs, 'c00': c00, 'cvv': cvv})
     return drifts, ok, out
